@@ -39,7 +39,7 @@ ASSUMPTIONS = [
 ]
 REPORT_COUNTERS = ["pairs_subclasscheck", "pairs_dispatch", "pairs_dispatch_two_parameters", "dispatch_retried_after_transient_hook_fault", "law_transitive", "law_issubclass",
                    "law_covariance", "deferred_before_import", "deferred_after_import", "late_registration_checked",
-                   "deferred_submodule_imported_late"]
+                   "deferred_submodule_imported_late", "class_objects_against_the_class_type"]
 
 CLOSED_HEADS = {"U", "I", "S", "H"}  # meanings closed under subclassing (with class atoms)
 
@@ -232,6 +232,27 @@ def check_case(spec, res):
         dclasses.append((lazy_mod + '.Lazy', Lazy))
         res.count('deferred_submodule_imported_late')
         per_type([dclasses[-1]])
+
+    # the class `type` is a class like any other: a method declared on it applies to v exactly when type(v) - for a
+    # class object, its metaclass - is a subclass of `type`; abstract classes, protocols and classes with a user
+    # metaclass are class objects too
+    ot = Ovld()
+    mt, f1 = make_method({"mid": 1, "pos": [{"n": "x"}]}, env, vf, ["return 1"], tag="c13", ann_override={"x": type})
+    ma, f2 = make_method({"mid": 0, "pos": [{"n": "x", "t": "object"}]}, env, vf, ["return 0"], tag="c13")
+    ot.register(mt)
+    ot.register(ma, priority=-1)
+    files += [f1, f2]
+    for cn, C in corpus + [(n, env.cls(n)) for n in ("HasFly", "Shape", "Hook")]:
+        for v, exp in ((C, True), (None if C is type(None) else C(), False)) if C not in (env.cls("HasFly"), env.cls("Shape")) \
+                else ((C, True),):
+            res.ev()
+            res.count("class_objects_against_the_class_type")
+            out = outcome(lambda: ot(v), vf)
+            if out[0] != "ran" or out[1] != ((1,) if exp else (0,)):
+                res.violation("meaning-vs-dispatch", [["type"], exp, out[0]], spec,
+                              observed={"type": "type", "value": ("class " if exp else "instance of ") + cn,
+                                        "outcome": list(map(str, out))[:3]},
+                              acceptable="T-method runs" if exp else "catch-all runs")
 
     # l3 issubclass on plain classes
     plain = corpus + [(n, env.cls(n)) for n in ("HasFly", "Shape", "Hook")] + dclasses
